@@ -42,6 +42,9 @@ CHECKS = {
  "C14": dict(level="model_checking", technique="explicit-state BFS over submission histories of a real routing.Core under a frozen virtual clock; bijection invariant between bundles and IDs in store and on the wire",
    text="With the virtual clock frozen every creation timestamp coincides: five application bundles with identical source and time (two clock-less, one with a preset sequence number) are submitted through SendBundle and through the agent path, and two received bundles make the node originate status reports in the same millisecond. BFS over submissions, receptions, peers, send outcomes, retry ticks and restart from three roots. In every state: bundle <-> ID on the wire is a bijection, every untransmitted submission has its own store record filed under the ID the stored bundle carries, and every (re)transmission uses that ID.",
    note="Trusted: as C05. A restart is modelled as taking one second of virtual time (clock-less bundles still collide across it: found and fixed).", design="3/C14"),
+ "C18": dict(level="model_checking", technique="explicit-state BFS over event histories of a real routing.Core per spray variant and budget, conservation invariant on copy counts in every state",
+   text="Spray-and-wait and binary spray with budgets L=1..4 (quick) / 1..8 (thorough): BFS over submission, reception (binary: carrying L copies), relays and destination up/down, send outcome switches and retry ticks from the initial state and from a root with one failing and one working relay. In every state: successful transmissions to non-destination peers <= L-1; copies kept (read from the algorithm's table) plus copies given away (spray: successes; binary: announced copies parsed from the transmitted bundles) equal the copies held, i.e. a failed transmission gives its copies back and nothing leaks; a single-copy holder transmits only to the destination.",
+   note="Trusted: as C05; read-only bridge into the spray metadata table. Concurrent failure reports: schedule exploration (see DESIGN).", design="3/C18"),
 }
 NA_REASON = "check not built yet in this round (planned in DESIGN.md section 3)"
 
